@@ -2,9 +2,9 @@
 # seedwave2.sh Cxx "<needs M1>" "<needs M2>": verify M1/M2 of a wave-2 worktree, write meta, run the check
 P=$1
 for k in 1 2; do
-  n=$P-b$k
+  n=$P-${TAG:-b}$k
   needs="$2"; [ $k = 2 ] && needs="$3"
-  MUT=M$k.diff /verif/tools/seedverify.sh /tmp/wt2/$P $n "cargo test --offline m${k}_" >/dev/null 2>&1
+  MUT=M$k.diff /verif/tools/seedverify.sh ${WT:-/tmp/wt2}/$P $n "cargo test --offline m${k}_" >/dev/null 2>&1
   v=$(tail -1 /verif/seeded/$n/verify.log)
   python3 /verif/tools/seedmeta.py $n $P "cargo test --offline m${k}_" "$needs" >/dev/null
   echo "$n: $v"
